@@ -349,6 +349,8 @@ class Engine:
         A.decided = {k: v for k, v in A.decided.items() if B.decided.get(k) is v}
         A.steps = min(A.steps, B.steps)
         A.maxdepth = max(A.maxdepth, B.maxdepth)
+        if B.maxrec[0] > A.maxrec[0]:
+            A.maxrec = B.maxrec
         self.stats["merges"] += 1
 
     def drop_dead(self, W):
